@@ -185,7 +185,7 @@ def r03i(F):
 		except AnchorMissing:
 			continue
 		rets = {expr_str(r)[:12] for c, r in rows if r is not None}
-		if any(x.startswith('Option::Some') for x in rets) and any(x.startswith('Option::None') for x in rets) and any(any(k.startswith('disc:') for k in c) for c, r in rows):
+		if any(x.startswith('Option::Some') for x in rets) and any(x.startswith('Option::None') for x in rets) and any(any(k.startswith('disc:') or 'is_err' in k or 'is_ok' in k for k in c) for c, r in rows):
 			hit = (fu, rows)
 	if hit is None:
 		return [Result('03.i', False, 'anchor:failed-paths-classifier', 'handle_pay_route_err: the closure selecting the failed paths of a partial failure was not found', where=F.where(F.fn(fn)))]
@@ -203,6 +203,9 @@ def r03i(F):
 		k_err = max(res_keys, key=len) if len(res_keys) > 1 else None
 		def allows(c, v):
 			return (isinstance(c, tuple) and v not in c[1]) or (not isinstance(c, tuple) and c == v)
+		if k_res is None and any('is_err' in k or 'is_ok' in k for k in conds):
+			bad.append('an Err path is forgotten without looking at the error kind (Err(MonitorUpdateInProgress) is a committed HTLC awaiting persistence)')
+			continue
 		if k_res is None or allows(conds[k_res], 0):
 			bad.append('a successfully sent path (Ok) is forgotten')
 		if k_err is None:
@@ -275,6 +278,16 @@ def r03j(F):
 			out.append(Result('03.j', ok, ('ok:' if ok else 'parked:') + '%s@line-class-%d' % (fld, cons.index((b, si))), 'monitor_updating_restored returns %s = the drained %s at its %s exit%s' % (fld, lst, 'early (peer disconnected)' if cons.index((b, si)) == 0 and len(cons) > 1 else 'normal', '' if ok else (' - it returns `%s` instead' % expr_str(v)[:40] if not same else ' - the drain can be bypassed')), 2, where=F.where(fn, fu.line_of(b))))
 	return out
 
+def r03k(F):
+	"""the terminal event survives a crash: the monitor learns that the resolution was handled only from the LAST event of the HTLC
+	(same structural rule as 10.h; re-labelled here because losing the terminal PaymentFailed is a C03 violation too)"""
+	import C10
+	out = []
+	for r in C10.r10h(F):
+		r.rule = '03.k'
+		out.append(r)
+	return out
+
 RULES = [
 	('03.a', 'terminal events are constructed only at the frozen sites; claim/fail are entered only from the manager funnels', r03a),
 	('03.b', 'PaymentSent only when not yet fulfilled, then mark_fulfilled; hash = SHA256(same preimage)', r03b),
@@ -284,5 +297,6 @@ RULES = [
 	('03.g', 'a failed outbound-route HTLC always reaches OutboundPayments::fail_htlc', r03g),
 	('03.h', 'an outbound HTLC is marked fulfilled only by a preimage that hashes to its payment hash, from Committed', r03h),
 	('03.i', 'paths handed to a channel (Ok / MonitorUpdateInProgress) stay in flight: classifier, path-failed events and sender agree', r03i),
+	('03.k', 'the payment-complete monitor release rides on the last (terminal) event pushed by fail_htlc', r03k),
 	('03.j', 'failures / forwards / finalized claims parked behind a monitor update are all returned when it completes, at every exit', r03j),
 ]
